@@ -64,6 +64,14 @@ var (
 	barsSamples   = samples3([]string{"", "a", keyLong, keyEsc}, []string{"", "x", "y"}, []string{"", "0", "-1", big57, big58})
 	tableSamples  = samples3([]string{"", "a", "bcd", keyEsc}, []string{"", "r", keyLong, keyEsc}, []string{"", "0", "-1", "5", maxI64})
 	reduceSamples = samples2([]string{"", "a", keyLong, keyEsc}, []string{"", "0", "-1", "5"})
+	// "signed" tables for heatmap and sparkline: cells that mix negative, zero
+	// (explicit 0 and, by omission, absent cells, which count as 0) and positive
+	// totals; repeated samples add up, so every small sum is reached. The range
+	// of such a table starts below zero, all-negative tables with an absent
+	// cell have their maximum at the absent cell.
+	signedVals    = []string{"", "0", "-5", "-1", "3"}
+	signedSamples = samples3([]string{"a", "b", "c"}, []string{"r", "q"}, signedVals)
+	signedSmall   = samples3([]string{"a", "b"}, []string{"r", "q"}, signedVals)
 	// pools for the "wide" states: one sample per chosen key
 	widePool = []string{"", "a", "b", "cd", "efg", "hijklmnop", keyEsc}
 )
@@ -195,6 +203,53 @@ func cfgsFor(family string, reduced, quick bool) []Cfg {
 	return out
 }
 
+// signedFixes: heatmap --min/--max for the signed tables: automatic range;
+// a fixed minimum below every cell; a fixed range around zero wider than the
+// data; one narrower than the data (clamps on both sides); a fixed maximum
+// below zero alone and together with a fixed minimum (zero and absent cells lie
+// above the range); a fixed minimum just below zero.
+var signedFixes = []heatFix{{}, {true, false, -10, 0}, {true, true, -10, 10}, {true, true, -3, 2}, {false, true, 0, -2}, {true, true, -7, -2}, {true, false, -1, 0}}
+
+var signedLimits = [][2]int{{5, 5}, {2, 2}, {1, 5}, {5, 1}}
+
+// signedCfgs: configurations of the signed passes (heatmap, spark).
+func signedCfgs(family string, reduced, quick bool) []Cfg {
+	var out []Cfg
+	cus, lims, fixes := cu4, signedLimits, signedFixes
+	if quick || reduced {
+		cus, lims, fixes = cu2, signedLimits[:2], signedFixes[:6]
+	}
+	if reduced {
+		lims, fixes = signedLimits[:1], []heatFix{signedFixes[0], signedFixes[1], signedFixes[3]}
+	}
+	for _, sc := range scaleNames {
+		for _, cu := range cus {
+			for _, p := range lims {
+				switch family {
+				case "heatmap":
+					for _, fx := range fixes {
+						out = append(out, Cfg{Scale: sc, Color: cu[0], Unicode: cu[1], Rows: p[0], Cols: p[1], FixMin: fx.fmin, FixMax: fx.fmax, Min: fx.min, Max: fx.max})
+					}
+				case "spark":
+					for _, nt := range []bool{false, true} {
+						out = append(out, Cfg{Scale: sc, Color: cu[0], Unicode: cu[1], Rows: p[0], Cols: p[1], NoTruncate: nt})
+					}
+				default:
+					panic("harness: no signed pass for " + family)
+				}
+			}
+		}
+	}
+	return out
+}
+
+func cfgsOf(ps pass, quick bool) []Cfg {
+	if ps.signed {
+		return signedCfgs(ps.family, ps.reduced, quick)
+	}
+	return cfgsFor(ps.family, ps.reduced, quick)
+}
+
 // wideCfgs: configurations for the wide states (many keys, limits around the
 // number of keys).
 func wideCfgs(family string) []Cfg {
@@ -226,30 +281,37 @@ type pass struct {
 	minLen  int
 	maxLen  int
 	reduced bool
+	signed  bool // the signed-table passes (signedCfgs)
 }
 
 func passes(quick bool) []pass {
 	ps := []pass{
-		{"histo", histoSamples, 0, 2, false},
-		{"histo", histoSamples, 3, 3, true},
-		{"bars", barsSamples, 0, 2, false},
-		{"bars", barsSamples, 3, 3, true},
-		{"table", tableSamples, 0, 2, false},
-		{"spark", tableSamples, 0, 2, false},
-		{"reduce", reduceSamples, 0, 3, false},
-		{"heatmap", tableSamples, 0, 2, false},
+		{"histo", histoSamples, 0, 2, false, false},
+		{"histo", histoSamples, 3, 3, true, false},
+		{"bars", barsSamples, 0, 2, false, false},
+		{"bars", barsSamples, 3, 3, true, false},
+		{"table", tableSamples, 0, 2, false, false},
+		{"spark", tableSamples, 0, 2, false, false},
+		{"reduce", reduceSamples, 0, 3, false, false},
+		{"heatmap", tableSamples, 0, 2, false, false},
+		{family: "heatmap", samples: signedSmall, minLen: 0, maxLen: 3, signed: true},
+		{family: "spark", samples: signedSmall, minLen: 0, maxLen: 3, signed: true},
 	}
 	if !quick {
 		ps = []pass{
-			{"histo", histoSamples, 0, 3, false},
-			{"bars", barsSamples, 0, 3, false},
-			{"table", tableSamples, 0, 2, false},
-			{"table", tableSamples, 3, 3, true},
-			{"spark", tableSamples, 0, 2, false},
-			{"spark", tableSamples, 3, 3, true},
-			{"reduce", reduceSamples, 0, 4, false},
-			{"heatmap", tableSamples, 0, 2, false},
-			{"heatmap", tableSamples, 3, 3, true},
+			{"histo", histoSamples, 0, 3, false, false},
+			{"bars", barsSamples, 0, 3, false, false},
+			{"table", tableSamples, 0, 2, false, false},
+			{"table", tableSamples, 3, 3, true, false},
+			{"spark", tableSamples, 0, 2, false, false},
+			{"spark", tableSamples, 3, 3, true, false},
+			{"reduce", reduceSamples, 0, 4, false, false},
+			{"heatmap", tableSamples, 0, 2, false, false},
+			{"heatmap", tableSamples, 3, 3, true, false},
+			{family: "heatmap", samples: signedSamples, minLen: 0, maxLen: 3, signed: true},
+			{family: "spark", samples: signedSamples, minLen: 0, maxLen: 3, signed: true},
+			{family: "heatmap", samples: signedSmall, minLen: 4, maxLen: 4, reduced: true, signed: true},
+			{family: "spark", samples: signedSmall, minLen: 4, maxLen: 4, reduced: true, signed: true},
 		}
 	}
 	return ps
@@ -552,7 +614,7 @@ func worker(w *runner.W) {
 				}
 				one := ps
 				one.minLen, one.maxLen = n, n
-				cfgs := cfgsFor(ps.family, ps.reduced, w.Quick())
+				cfgs := cfgsOf(ps, w.Quick())
 				enumerate(one, func(hist []string, renders []int, _ []int) bool {
 					if hasBlankColumn(ps.family, hist) != (sweep == 2) {
 						return true
@@ -603,10 +665,15 @@ func rule(prop, tier string) string {
 	sb.WriteString("real renderers of pkg/multiterm/termrenderers driven through the call sequences of cmd/histo.go, bargraph.go, tabulate.go, heatmap.go, spark.go, reduce.go on a VirtualTerm. A case = (family, sample history given to the real aggregator's Sample, set of intermediate render points, configuration). ")
 	sb.WriteString("Histories: ALL sequences over the family's sample alphabet within the length range of each pass, with ALL subsets of intermediate render points (the final render always happens); a history is skipped only when another one with the same samples in sorted order inside every between-renders segment is executed (the aggregators are commutative folds). Passes: ")
 	for _, ps := range passes(quick) {
-		fmt.Fprintf(&sb, "%s len %d..%d x %d configs; ", ps.family, ps.minLen, ps.maxLen, len(cfgsFor(ps.family, ps.reduced, quick)))
+		name := ps.family
+		if ps.signed {
+			name += fmt.Sprintf("(signed tables, %d samples)", len(ps.samples))
+		}
+		fmt.Fprintf(&sb, "%s len %d..%d x %d configs; ", name, ps.minLen, ps.maxLen, len(cfgsOf(ps, quick)))
 	}
 	fmt.Fprintf(&sb, "sample alphabets (NUL-separated): histo {%s}; bars {keys \"\",a,40-rune,ESC[31mqESC[0m x subkeys \"\",x,y x values none,0,-1,2^57,2^58}; table/heatmap/spark {columns \"\",a,bcd,escape-key x rows \"\",r,40-rune,escape-key x values none,0,-1,5,MaxInt64}; reduce {keys x values \"\",0,-1,5 with -g k={1} -a sum={sumi {.} {2}} -a last={2} -a n={sumi {.} 1}}. ", qs(histoSamples[:5]))
 	sb.WriteString("Configurations (full grids): histo scale{linear,log2,log10} x colour x unicode x -n{0,1,2,5} x -x x format{default, expression <{0}|{1}|{2}> built by helpers.BuildFormatter (depends on value, min and max)} x sort{value, and text when bars are shown or the expression format is used}; bars stacked/grouped x scale{unset,log2,log10 (grouped only)} x colour x unicode x format; table colour x (rows,cols) in {(0,0),(1,1),(2,2),(5,5),(1,5),(5,1),(0,5),(5,0)} x -x x format; heatmap scale x colour x unicode x those limits x {auto, --min 0 --max 2, --min 1, --min 5 --max 1}; spark scale x colour x unicode x limits x notruncate x format (quick tier: heatmap and spark without the limits (0,5),(5,0), heatmap without --min 1, spark default format only); reduce colour x 8 (rows,cols) limits. Reduced grids (used for the longest histories) are subsets: colour+unicode both on/off, linear+log2, 2-3 limit pairs. ")
+	sb.WriteString("Signed tables (heatmap and spark; cells mixing negative, zero, absent (= 0) and positive totals, sums of repeated samples included, all-negative tables with an absent cell included): sample alphabet columns {a,b[,c]} x rows {r,q} x values {none(=1),0,-5,-1,3} (30 samples with column c, 20 without; the pass list says which); heatmap scale{linear,log2,log10} x colour x unicode x limits {(5,5),(2,2),(1,5),(5,1)} x range {auto, --min -10, --min -10 --max 10, --min -3 --max 2, --max -2, --min -7 --max -2, --min -1}; spark scale x colour x unicode x those limits x notruncate; quick tier: colour+unicode both on/off, limits (5,5),(2,2), without --min -1; the length-4 pass of the thorough tier: colour+unicode both on/off, limits (5,5), heatmap range {auto, --min -10, --min -3 --max 2}. Judged there as everywhere: within one rendered heatmap/sparkline the drawn cell (palette index / glyph index) is a monotone non-decreasing function of the cell's value (equal values drawn identically, a larger value never drawn colder/lower) and every row has one cell per displayed column. ")
 	fmt.Fprintf(&sb, "Wide states: every non-empty subset of the key pool {%s}, one sample per key, limits 0..8. ", qs(widePool))
 	fmt.Fprintf(&sb, "Laws: termscaler Scale/Bucket/LengthVal/ScaleKeys for linear, log2, log10 over (val,min,max) in G^3, |G|=%d including Min/MaxInt64; termunicode BarWrite/HeatWrite/SparkWrite over %d unit values x colour x unicode x max length {0,1,2,7,50}. ", len(gridValues(quick)), len(unitGrid()))
 	sb.WriteString("non-trivial = the final render displayed at least one data row (and one column for the table families); for laws: at least three distinct scaled values / bar lengths")
